@@ -4,7 +4,9 @@ from common import *
 
 LENS = 'cat'
 TRACE_MODULE = 'Trace_IggyCatalogue'
-FAMILIES = {'C05': ['streams', 'topics', 'groups', 'seeded', 'users'], 'C06': ['streams', 'topics', 'groups', 'seeded', 'users']}
+FAMILIES = {'C05': ['streams', 'topics', 'groups', 'seeded', 'users'], 'C06': ['streams', 'topics', 'groups', 'seeded', 'users'],
+            'C19': ['topics', 'users'],
+            'C13': ['streams', 'topics', 'users']}
 
 BASE = dict(SIds='{0}', SNames='{"sa"}', TIds='{0}', TNames='{"ta"}', GIds='{0}', GNames='{"ga"}', UNames='{"alice"}',
             Clients='{1}', MaxId=3, Seeded='FALSE')
@@ -40,12 +42,14 @@ def mc_family(family, tier, wd):
 
 def concretise(script, rnd, transport):
     """model names -> concrete names of seeded lengths (never all digits, no characters that need escaping in an HTTP path);
-    lengths >= 4 here: identifiers of 1-3 bytes are exercised by the wire lens (C13)."""
+    lengths 1..255 (one- and two-byte names included)."""
     table = {}
     def name(model, kind):
         if model not in table:
-            n = rnd.choice({'s': [4, 9, 40, 255], 't': [4, 11, 64, 255], 'g': [4, 8, 255], 'u': [4, 12, 50]}[kind])
+            n = rnd.choice({'s': [1, 2, 4, 9, 40, 255], 't': [1, 3, 4, 11, 64, 255], 'g': [1, 2, 8, 255], 'u': [3, 4, 12, 50]}[kind])
             table[model] = kind + ''.join(rnd.choice('abcdefghijklmnopqrstuvwxyz_-') for _ in range(n - 1))
+            while table[model] in [v for k, v in table.items() if k != model]:     # one-letter names can collide
+                table[model] = kind + ''.join(rnd.choice('abcdefghijklmnopqrstuvwxyz') for _ in range(max(1, n - 1)))
         return table[model]
     def ref(r, kind):
         return dict(by='id', v=r['v']) if r['by'] == 'id' else dict(by='name', v=name(r['v'], kind))
@@ -108,6 +112,9 @@ REGRESSIONS = [
 ]
 
 
+ENCRYPT = False
+
+
 def build_scenarios(families, tier, wd, seed):
     rnd = random.Random(seed)
     scenarios, stats = [], {}
@@ -126,7 +133,7 @@ def build_scenarios(families, tier, wd, seed):
                 if tr == 'http' and rnd.random() < 0.5 and tier == 'quick':
                     continue
                 n += 1
-                cfg = dict(transport=tr, cache='off', save_threshold=rnd.choice([1, 1000]))
+                cfg = dict(transport=tr, cache='off', save_threshold=rnd.choice([1, 1000]), encryption=ENCRYPT)
                 scenarios.append(dict(id=f'{fam}-{n}', family=fam, cfg=cfg, seed=rnd.randrange(1 << 30),
                                       steps=concretise(s + tail + ([dict(op='restart')] if rnd.random() < 0.2 else []), rnd, tr)))
     for name, tr, steps in REGRESSIONS:
@@ -143,6 +150,8 @@ def attribute(prop, scn, events_bad):
     """C05 owns what appears with a restart (not there before it); C06 owns everything else (and panics)."""
     out = []
     steps = scn['steps']
+    if prop in ('C19', 'C13'):
+        return [(i, ev, lab) for i, (ev, labels) in sorted(events_bad.items()) for lab in labels]
     for i, (ev, labels) in sorted(events_bad.items()):
         before = events_bad.get(i - 1, (None, []))[1]
         for lab in labels:
@@ -165,6 +174,10 @@ def nontrivial(prop, scn, evs):
     ops = [s['op'] for s in scn['steps']]
     creates = [s for s in scn['steps'] if s['op'].startswith('create_') and 'id' in s]
     mixed = any(s['id'] == 0 for s in creates) and any(s['id'] != 0 for s in creates)
+    if prop == 'C13':
+        return scn['cfg'].get('transport') == 'http' or len(ops) >= 4
+    if prop == 'C19':
+        return 'restart' in ops and any(o.startswith('create_') for o in ops)
     if prop == 'C05':
         return 'restart' in ops and (mixed or any(o.startswith('delete_') for o in ops))
     return any(e['res'] != 'ok' for e in evs) or any(o.startswith('delete_') for o in ops)
@@ -172,7 +185,9 @@ def nontrivial(prop, scn, evs):
 RULES = {
     'C05': 'scenario restarts after commands that mix server- and client-chosen ids, or after a delete',
     'C06': 'scenario contains a refused (invalid) command or a delete',
+    'C19': 'encrypted journal: creates followed by a restart (the journal is decrypted and replayed)',
+    'C13': 'catalogue scenario over HTTP/JSON, or of >= 4 commands over TCP, with seeded boundary-length names',
 }
 ASSUMPTIONS = ['server-chosen ids are bound from the response and only required to be free in their scope',
-               'names are seeded strings of boundary lengths >= 4 (shorter identifiers belong to the wire lens), never all digits',
+               'names are seeded strings of boundary lengths 1..255, never all digits',
                'an in-process restart: System::shutdown, runtime dropped, process-global id counter reset (hook H2), new System on the same directory']
